@@ -274,7 +274,21 @@ func (s *Script) evalWithRoot(stack, data, root any) (any, Expr) {
 					}
 					sstack[i] = ev
 				}
-				// TBD one more for getRight once function extensions are supported
+			}
+			if 1 < i {
+				// The right argument of a function registered with getRight
+				// when the left argument is a plain value.
+				if o, ok := sstack[i-2].(*op); ok && o.getRight && o.cnt == 2 {
+					if _, isOp := sstack[i-1].(*op); !isOp {
+						var x Expr
+						if x, ok = ev.(Expr); ok {
+							ev = x.Get(v)
+						} else {
+							ev = nil
+						}
+						sstack[i] = ev
+					}
+				}
 			}
 			// Normalize into nil, bool, int64, float64, and string early so
 			// that each comparison doesn't have to.
